@@ -565,7 +565,7 @@ pub fn run_case(idx: u64, case: &Case, tl: Option<(&tokio::runtime::Runtime, rac
         None => (vec![], false, String::new()),
     };
     if is_tl {
-        crate::th::wait_until(10_000, || vt::global_leaks().is_empty());
+        let _ = crate::th::settle_leaks();
     }
     for l in vt::global_leaks() {
         v.push(("leak".into(), l));
